@@ -91,7 +91,8 @@ def action_instances(game, rng: random.Random, per_type: int = 6) -> List[Tuple[
                 for a in apps:
                     # nmap deliberately exposes only its three scan operations (its manager does not inherit the
                     # generic application requests): the generic verbs do not exist for it
-                    cands.append(({"node_name": h, "application_name": a}, a != "nmap"))
+                    # (nmap offers scan / close / fix like every application, but no execute of its own)
+                    cands.append(({"node_name": h, "application_name": a}, not (a == "nmap" and name == "node-application-execute")))
                 cands.append(({"node_name": h, "application_name": "no-such-app"}, False))
             elif name == "node-application-install":
                 for a in ("dos-bot", "database-client", "web-browser"):
